@@ -160,6 +160,13 @@ Definition reply_with (p : packet) (command : Z) (b : body) : option (Z * packet
   | Some e => Some (e, mkPkt command (seq p) (typ p) (flg p) (node p) b (refers p) None)
   end.
 
+(* New(command, seq, flag, v) and ReplyWith(command, v) with any Go value SetBody supports: the
+   value is normalised exactly as SetBody does, so that the packet has a wire form *)
+Definition new_packet (o : oracles) (command sq flag : Z) (v : gov) : packet :=
+  mkPkt command sq 0 flag 0 (set_body o v) [] None.
+Definition reply_with_value (o : oracles) (p : packet) (command : Z) (v : gov) : option (Z * packet) :=
+  reply_with p command (set_body o v).
+
 (* RefuseWith(command, errno) *)
 Definition refuse_with (p : packet) (command ec : Z) : option (Z * packet) :=
   match endpoint p with
